@@ -88,3 +88,44 @@ pub trait Encoder<T> {
 // a str never holds more than isize::MAX bytes (Rust allocation limit); spec_bytes is vstd's UTF-8 encoding
 pub broadcast axiom fn axiom_str_len(s: &str)
     ensures #[trigger] s.spec_bytes().len() <= isize::MAX;
+
+// ---- serde_json as seen by JsonCodec / JsonRpcCodec (assumed): parsing a text and converting a
+// value into a typed message are uninterpreted partial functions; `to_string` is the compact
+// rendering (one document, no blank line inside it)
+pub mod serde_json {
+    use super::*;
+    pub mod value { pub use super::Value; }
+    pub struct Value { pub _p: u8 }
+    pub struct Error { pub _p: u8 }
+    pub uninterp spec fn json_parse(s: Seq<char>) -> Option<Value>;
+    pub uninterp spec fn json_text(v: Value) -> Seq<char>;
+    impl Value {
+        /// std::str::FromStr for serde_json::Value
+        #[verifier::external_body]
+        pub fn from_str(s: &str) -> (r: ::std::result::Result<Value, Error>)
+            ensures match json_parse(s@) { Some(v) => r is Ok && r->Ok_0 == v, None => r is Err }
+        { unimplemented!() }
+        #[verifier::external_body]
+        pub fn to_string(&self) -> (r: String) ensures r@ == json_text(*self) { unimplemented!() }
+    }
+    pub uninterp spec fn from_value_spec<T>(v: Value) -> Option<T>;
+    #[verifier::external_body]
+    pub fn from_value<T>(v: Value) -> (r: ::std::result::Result<T, Error>)
+        ensures match from_value_spec::<T>(v) { Some(t) => r is Ok && r->Ok_0 == t, None => r is Err }
+    { unimplemented!() }
+}
+impl ::std::convert::From<serde_json::Error> for AnyErr { #[verifier::external_body] fn from(e: serde_json::Error) -> AnyErr { unimplemented!() } }
+impl vstd::std_specs::convert::FromSpecImpl<serde_json::Error> for AnyErr {
+    open spec fn obeys_from_spec() -> bool { false }
+    open spec fn from_spec(v: serde_json::Error) -> Self { arbitrary() }
+}
+// the typed messages of src/cln_plugin/messages.rs are opaque here (what JsonRpc::deserialize makes
+// of a value is the uninterpreted from_value_spec)
+pub mod messages_env {
+    pub struct Notification { pub _p: u8 }
+    pub struct Request { pub _p: u8 }
+    pub struct JsonRpc<N, R> { pub _n: Option<N>, pub _r: Option<R>, pub _p: u8 }
+}
+pub use messages_env::{JsonRpc, Notification, Request};
+pub use serde_json::Value;
+impl serde_json::Value { #[verifier::external_body] pub fn default() -> (r: serde_json::Value) { unimplemented!() } }
